@@ -58,6 +58,7 @@ Definition pins : list string := ["usim/py/events.py:Event.__init__";
   "usim/py/core.py:Environment.__aenter__";
   "usim/py/core.py:Environment.__aexit__";
   "usim/py/core.py:Environment.until";
+  "usim/py/core.py:Environment._run_until";
   "usim/py/core.py:Environment.run";
   "usim/py/core.py:Environment.step";
   "usim/py/core.py:Environment.peek";
